@@ -26,6 +26,7 @@ type poolScenario struct {
 	hosts    int
 	dialFate []int // per dial index (per host): 0 ok, 1 fail fast, 2 slow ok, 3 slow fail
 	resets   int   // number of server-side resets during the run
+	cerr     int   // transports whose Close() reports an error: 0 none, 1 all, 2 odd ids
 	millis   int
 	seed     uint64
 }
@@ -66,6 +67,9 @@ func runPool(sc poolScenario) (string, string) {
 				return errors.New("memcluster: connection timed out")
 			}
 			return nil
+		}
+		if sel := cerrSel(sc.cerr); sel != nil {
+			closeErrEvery(n, sel)
 		}
 	}
 	cfg := sess.Config(cl, 4, ips...)
@@ -163,6 +167,7 @@ func runPool(sc poolScenario) (string, string) {
 	cdone := make(chan struct{})
 	go func() { s.Close(); close(cdone) }()
 	if !closedWithin(cdone, watchdogFull) {
+		atomic.AddInt64(&failures, 1)
 		return "fatal:Session.Close hangs " + stacks(), "fatal"
 	}
 	// slow dials still in flight finish and must close their connection: polled (the slowest scripted dial takes
@@ -188,9 +193,12 @@ func stacks() string {
 }
 
 // runClose: Session.Close called by `closers` goroutines at once while queries are in flight.
-func runClose(closers int, inflight int, r *vh.Rng) string {
+func runClose(closers int, inflight int, cerr int, r *vh.Rng) string {
 	cl := memcluster.NewCluster(4, "10.0.0.1", "10.0.0.2")
 	for _, n := range cl.Nodes {
+		if sel := cerrSel(cerr); sel != nil {
+			closeErrEvery(n, sel)
+		}
 		n.Handle = func(req *memcluster.Request) {
 			if strings.Contains(req.Stmt, "never") {
 				return
@@ -244,7 +252,10 @@ func runClose(closers int, inflight int, r *vh.Rng) string {
 	returned := 1
 	if !closedWithin(done, watchdogFull) {
 		returned = 0
+		atomic.AddInt64(&failures, 1)
 		os.WriteFile(dumpPath("hang", "sessclose"), []byte(stacks()), 0o644)
+		// Session.Close hangs: the run has failed; what follows is not waited for any more
+		return fmt.Sprintf("sessclose returned=0 panics=%d again=0 queryerr=other open=0", atomic.LoadInt64(&panics))
 	}
 	again := 0
 	adone := make(chan struct{})
@@ -387,6 +398,48 @@ func exec(op string) string {
 			return "accept"
 		}
 		return "observed-now:" + strings.ReplaceAll(fresh, " ", ",")
+	case "ctl":
+		if len(w) < 2 || w[1] != ":" {
+			return "bad-op"
+		}
+		_, impl, _ := runCtl(label, append([]string{}, w[2:]...), nil)
+		return impl
+	case "retry":
+		n, fates := -1, ""
+		for _, x := range w[1:] {
+			if strings.HasPrefix(x, "n=") {
+				n, _ = strconv.Atoi(strings.TrimPrefix(x, "n="))
+			}
+			if strings.HasPrefix(x, "fates=") {
+				fates = strings.TrimPrefix(x, "fates=")
+			}
+		}
+		if n < 0 || fates == "" {
+			return "bad-op"
+		}
+		return runRetry(label, n, fates)
+	case "retryobs":
+		return "accept"
+	case "ctlunit":
+		if len(w) != 3 {
+			return "bad-op"
+		}
+		return runCtlUnit(w[1])
+	case "ctlobs":
+		for _, x := range w {
+			if strings.HasPrefix(x, "sched=") {
+				var acts []string
+				if x != "sched=-" {
+					acts = strings.Split(strings.TrimPrefix(x, "sched="), ",")
+				}
+				_, _, fresh := runCtl(label, append([]string{}, acts...), nil)
+				if ctlMonitorsOf(fresh) == ctlMonitorsOf(op) {
+					return "accept"
+				}
+				return "observed-now:" + strings.ReplaceAll(ctlMonitorsOf(fresh), " ", ",")
+			}
+		}
+		return "bad-op"
 	case "model", "hsmodel", "pipemodel":
 		return "(model only)"
 	case "pipe":
@@ -487,6 +540,7 @@ func main() {
 			sc.resets = 0
 			sc.millis = 450
 		}
+		sc.cerr = (i / 3) % 3
 		scen[i] = sc
 	}
 	res := make([][2]string, np)
@@ -498,12 +552,18 @@ func main() {
 		go func(i int) {
 			defer wg.Done()
 			defer func() { <-sem }()
+			if atomic.LoadInt64(&failures) >= 2 {
+				return // the run has failed (it will be reported): scenarios not yet started are skipped
+			}
 			a, b := runPool(scen[i])
 			res[i] = [2]string{a, b}
 		}(i)
 	}
 	wg.Wait()
 	for i := range res {
+		if res[i][0] == "" {
+			continue
+		}
 		if strings.HasPrefix(res[i][0], "fatal") {
 			os.WriteFile(path+"/fatal.txt", []byte(res[i][0]), 0o644)
 			out.Case("sessclose returned=0 panics=0 again=0 queryerr=other open=0", "accept", "fatal", true)
@@ -513,20 +573,22 @@ func main() {
 	}
 	lap("pools")
 	// 3. Session.Close: concurrent closers, queries in flight
-	for i := 0; i < 40*mult; i++ {
-		op := runClose(1+r.Intn(4), r.Intn(8), r)
+	for i := 0; i < 40*mult && atomic.LoadInt64(&failures) < 2; i++ {
+		op := runClose(1+r.Intn(4), r.Intn(8), i%3, r)
 		if strings.HasPrefix(op, "fatal") {
 			fmt.Fprintln(os.Stderr, op)
 			os.Exit(3)
 		}
-		out.Case(op, "accept", "sessclose", true)
+		out.Case(op, "accept", []string{"sessclose", "sessclose/transport-Close-errors", "sessclose/transport-Close-errors-odd"}[i%3], true)
 	}
-	op := closeRace(400 * mult)
-	if strings.HasPrefix(op, "fatal") {
-		fmt.Fprintln(os.Stderr, op)
-		os.Exit(3)
+	if atomic.LoadInt64(&failures) < 2 {
+		op := closeRace(400 * mult)
+		if strings.HasPrefix(op, "fatal") {
+			fmt.Fprintln(os.Stderr, op)
+			os.Exit(3)
+		}
+		out.Case(op, "accept", "sessclose/race", true)
 	}
-	out.Case(op, "accept", "sessclose/race", true)
 	lap("sessclose")
 	// 4. the connect pipeline: conducted schedules (model-predicted) and scripted-fate scenarios (monitors)
 	nA, nB, nC := 200*mult, 48*mult, 80*mult
@@ -626,6 +688,82 @@ func main() {
 	}
 	extra["deb/refreshes-of-a-timer-that-survived-the-flusher's-drain-let-through"] = int(atomic.LoadInt64(&staleTimerRefreshes))
 	lap("debwaiters")
+	// 7. Session.Close against the control connection: conducted reconnects of the heartbeat goroutine
+	{
+		nK := 36 * mult
+		type kres struct{ op, impl, obs string }
+		kr := make([]kres, nK)
+		kseeds := make([]uint64, nK)
+		for i := range kseeds {
+			kseeds[i] = r.U64()
+		}
+		var kwg sync.WaitGroup
+		ksem := make(chan struct{}, 12)
+		for i := range kr {
+			kwg.Add(1)
+			ksem <- struct{}{}
+			go func(i int) {
+				defer kwg.Done()
+				defer func() { <-ksem }()
+				if atomic.LoadInt64(&failures) >= 2 {
+					return
+				}
+				op, impl, obs := runCtl(fmt.Sprintf("k%d", i), nil, vh.NewRng(kseeds[i]))
+				kr[i] = kres{op, impl, obs}
+			}(i)
+		}
+		kwg.Wait()
+		for i := range kr {
+			if kr[i].obs == "" && kr[i].impl == "" {
+				continue
+			}
+			if strings.HasPrefix(kr[i].impl, "fatal") {
+				fmt.Fprintln(os.Stderr, kr[i].impl)
+				os.Exit(3)
+			}
+			cls := "ctl/close-with-heartbeat-in-select"
+			if strings.Contains(kr[i].op, "dropo") {
+				cls = fmt.Sprintf("ctl/close-racing-reader-reconnect/after-%d-round-trips", strings.Count(kr[i].op, " relo"))
+			} else if strings.Contains(kr[i].op, "hbfail") {
+				w := strings.SplitN(kr[i].op, " close", 2)
+				cls = fmt.Sprintf("ctl/close-inside-heartbeat-reconnect/after-%d-round-trips", strings.Count(w[0], " rel"))
+			}
+			out.Case(kr[i].op, kr[i].impl, cls, true)
+			out.Case(kr[i].obs, "accept", "ctlobs", true)
+		}
+		// the order of the FIRST instructions of the heartbeat goroutine and of controlConn.close() (a goroutine's start
+		// cannot be delayed inside a real Session: a controlConn of its own through the hook)
+		out.Case("ctlunit hb close", runCtlUnit("hb"), "ctlunit/heartbeat-started-first", true)
+		out.Case("ctlunit close hb", runCtlUnit("close"), "ctlunit/close-before-the-heartbeat-goroutine-runs", true)
+		lap("controlconn")
+		// 8. the reconnection policy's retry loop inside hostConnPool.connect(): GetMaxRetries() 0..4, scripted attempt fates
+		for i := 0; i < 16*mult && atomic.LoadInt64(&failures) < 2; i++ {
+			n := r.Intn(5)
+			if i < 5 {
+				n = i
+			}
+			fates := ""
+			for j, m := 0, r.Intn(5); j < m; j++ {
+				fates += string("ottp"[r.Intn(4)])
+			}
+			if fates == "" {
+				fates = "-"
+			}
+			line := runRetry(fmt.Sprintf("rt%d", i), n, fates)
+			if strings.HasPrefix(line, "fatal") {
+				fmt.Fprintln(os.Stderr, line)
+				os.Exit(3)
+			}
+			out.Case(fmt.Sprintf("retry n=%d fates=%s", n, fates), line, fmt.Sprintf("retry/maxretries%d", n), true)
+			if n >= 1 { // n = 0 is what C17_connect_conn_or_error_partial excludes (KF-C17-5)
+				var d, z int
+				var rs, pk string
+				fmt.Sscanf(strings.NewReplacer("res=", "", "dials=", "", "conns=", "", "nil=", "", "pick=", "").Replace(line), "%s %d %d %d %s", &rs, &d, new(int), &z, &pk)
+				out.Case(fmt.Sprintf("retryobs n=%d dials=%d nil=%d pick=%s", n, d, z, pk), "accept", "retryobs", true)
+			}
+		}
+		lap("retry")
+	}
 	// 1. debouncer stop races (the defect repaired by the fix commit must not come back). Run LAST: each round
 	// left a goroutine parked on a listener nobody served any more (refreshNow after stop) on a tree without the fix
 	// commit for KF-C17-2, and thousands of parked goroutines make every goroutine profile of the pipeline monitors slow.
